@@ -79,7 +79,7 @@ pub open spec fn chan_delivery(tt: TargetTypeSet, before: Seq<(int, Seq<char>)>,
 }
 
 impl MainState {
-//@block state/rest_cmds.rs MainState::process_privmsg_notice privmsg_one_target unit=privmsg props=C01,C10,C05 rules=R2,R5t,R5b,R6 loopbody=~for target in HashSet::<&&str>::from_iter\(targets\.iter\(\)\)
+//@block state/rest_cmds.rs MainState::process_privmsg_notice privmsg_one_target unit=privmsg props=C01,C10,C05 rules=R2,R5t,R5b,R6 loopbody=~|for target in HashSet::<&&str>::from_iter\(targets\.iter\(\)\)|
 //@head
     pub async fn privmsg_one_target<'a>(&self, state: &VolatileState, conn_state: &mut ConnState, target: &&'a str, text: &'a str, notice: bool,
             Tracked(outbox): Tracked<&mut Outbox>) -> (r: Result<bool, HErr>)
